@@ -59,6 +59,7 @@ type c07Scenario struct {
 	DeliverAll bool         `json:"deliverAll"`
 	Written    []int        `json:"written"`
 	Late       bool         `json:"late"`
+	CErr       []string     `json:"cerr"`
 }
 
 func (s *c07Scenario) String() string {
@@ -163,6 +164,23 @@ type c07Run struct {
 	errR       *c07Err
 	rngMu      sync.Mutex
 	rng        *rand.Rand
+	tr         *kit.Tracer // recording pass only
+}
+
+func (r *c07Run) ev(name string, kv ...any) {
+	if r.tr == nil {
+		return
+	}
+	m := kit.M{"e": name}
+	for i := 0; i+1 < len(kv); i += 2 {
+		m[kv[i].(string)] = kv[i+1]
+	}
+	r.tr.Emit(m)
+}
+
+func (r *c07Run) fireCtx() {
+	r.ev("ctx_done")
+	r.cancelCtx()
 }
 
 func (r *c07Run) rnd(n int) int {
@@ -176,7 +194,7 @@ func (r *c07Run) rnd(n int) int {
 func (r *c07Run) jitter() {
 	if r.ctx != nil && r.sc.Ctx == "during" {
 		if atomic.AddInt32(&r.ticks, 1) == r.fireAt {
-			r.cancelCtx()
+			r.fireCtx()
 		}
 	}
 	switch x := r.rnd(100); {
@@ -202,6 +220,7 @@ func (r *c07Run) generate(source chan<- any) {
 	}
 	for i := 1; i <= limit; i++ {
 		r.jitter()
+		r.ev("gen_send", "i", i)
 		source <- i
 	}
 	r.jitter()
@@ -224,22 +243,31 @@ func (r *c07Run) enter(i int) {
 // mapItem acts out mb[i]; write/cancel are nil where the entry point has none.
 func (r *c07Run) mapItem(i int, write func(v any), cancel func(error)) error {
 	r.enter(i)
-	defer atomic.AddInt32(&r.running, -1)
+	r.ev("map_begin", "i", i)
+	defer func() {
+		r.ev("map_end", "i", i)
+		atomic.AddInt32(&r.running, -1)
+	}()
 	r.jitter()
 	switch b := r.sc.MB[i-1]; b {
 	case "w0":
 	case "w1", "w2":
 		for k := 1; k <= int(b[1]-'0'); k++ {
+			r.ev("map_write", "v", i*10+k)
 			write(i*10 + k)
 			r.jitter()
 		}
 	case "cancelE":
+		r.ev("cancel_begin", "c", i)
 		if cancel == nil { // Finish: the function returns the error
 			return r.errs[i]
 		}
 		cancel(r.errs[i])
+		r.ev("cancel_end", "c", i)
 	case "cancelNil":
+		r.ev("cancel_begin", "c", i)
 		cancel(nil)
+		r.ev("cancel_end", "c", i)
 	case "panic":
 		panic(c07UserPanic("P" + strconv.Itoa(i)))
 	case "latepanic":
@@ -260,6 +288,7 @@ func (r *c07Run) reduce(pipe <-chan any, write func(v any), cancel func(error)) 
 			r.mu.Lock()
 			r.received = append(r.received, v.(int))
 			r.mu.Unlock()
+			r.ev("red_recv", "v", v.(int))
 			cnt++
 			r.jitter()
 			if r.sc.RStop > 0 && cnt >= r.sc.RStop {
@@ -269,6 +298,7 @@ func (r *c07Run) reduce(pipe <-chan any, write func(v any), cancel func(error)) 
 	}
 	for k := 1; k <= r.sc.RW; k++ {
 		r.jitter()
+		r.ev("red_write", "k", k)
 		write("R" + strconv.Itoa(k))
 	}
 	r.jitter()
@@ -281,7 +311,9 @@ func (r *c07Run) reduce(pipe <-chan any, write func(v any), cancel func(error)) 
 		r.jitter()
 		panic(c07UserPanic("PRED"))
 	case "cancel":
+		r.ev("cancel_begin", "c", 0)
 		cancel(r.errR)
+		r.ev("cancel_end", "c", 0)
 	}
 }
 
@@ -328,6 +360,7 @@ func (r *c07Run) call(src chan any) (out c07Outcome) {
 		if p := recover(); p != nil {
 			out = r.classify(nil, nil, p, true)
 		}
+		r.ev("ret", "kind", out.Kind, "val", out.Val)
 	}()
 	sc := r.sc
 	opts := []mr.Option{mr.WithWorkers(sc.Workers)}
@@ -364,7 +397,8 @@ func (r *c07Run) call(src chan any) (out c07Outcome) {
 	default:
 		panic("c07 driver: unknown api " + sc.API)
 	}
-	return r.classify(v, err, nil, false)
+	out = r.classify(v, err, nil, false)
+	return out
 }
 
 // ------------------------------------------------------------------ the judge
@@ -373,6 +407,7 @@ type c07Judge struct {
 	self      int
 	leftovers map[int]bool // goroutines proven blocked for ever by earlier failures (they stay in the process)
 	rep       *kit.Reporter
+	tr        *kit.Tracer // recording pass: user-level events for spec/MRTrace.tla
 }
 
 type c07Fail struct {
@@ -438,15 +473,18 @@ func (j *c07Judge) adopt(gs []c07G) {
 
 func (j *c07Judge) runOnce(sc *c07Scenario, seed int64) *c07Fail {
 	r := &c07Run{sc: sc, seed: seed, mapped: make([]int32, sc.N+1), gate: make(chan struct{}),
-		errs: make([]*c07Err, sc.N+1), errR: &c07Err{"ER"}, rng: rand.New(rand.NewSource(seed))}
+		errs: make([]*c07Err, sc.N+1), errR: &c07Err{"ER"}, rng: rand.New(rand.NewSource(seed)), tr: j.tr}
 	for i := 1; i <= sc.N; i++ {
 		r.errs[i] = &c07Err{"E" + strconv.Itoa(i)}
 	}
+	r.ev("reset", "kind", "trace", "api", sc.API, "n", sc.N, "workers", sc.Workers, "mapAll", sc.MapAll, "deliverAll", sc.DeliverAll,
+		"written", sc.Written, "allowed", sc.Allowed, "cerr", sc.CErr, "pregen", sc.API == "Finish" || sc.API == "FinishVoid",
+		"scenario", sc.String())
 	ctlDone := int32(1)
 	switch sc.Ctx {
 	case "before":
 		r.ctx, r.cancelCtx = context.WithCancel(context.Background())
-		r.cancelCtx()
+		r.fireCtx()
 	case "during":
 		r.ctx, r.cancelCtx = context.WithCancel(context.Background())
 		r.fireAt = int32(r.rnd(3*sc.N + 8)) // 0: from the controller right away
@@ -463,6 +501,7 @@ func (j *c07Judge) runOnce(sc *c07Scenario, seed int64) *c07Fail {
 			defer close(src)
 			for i := 1; i <= sc.N; i++ {
 				r.jitter()
+				r.ev("gen_send", "i", i)
 				select {
 				case src <- i:
 				case <-feederQuit:
@@ -493,7 +532,7 @@ func (j *c07Judge) runOnce(sc *c07Scenario, seed int64) *c07Fail {
 					time.Sleep(time.Duration(100+r.rnd(900)) * time.Microsecond)
 				}
 			}
-			r.cancelCtx()
+			r.fireCtx()
 		}()
 	}
 
@@ -655,6 +694,7 @@ func (j *c07Judge) runOnce(sc *c07Scenario, seed int64) *c07Fail {
 	if fail != nil {
 		return fail
 	}
+	r.ev("end")
 	j.rep.Count("leakchecks", 1)
 
 	// ---- exactly once / bounded workers (scenarios without cancellation only)
@@ -726,6 +766,14 @@ func TestVerifC07(t *testing.T) {
 	shard, shards := kit.EnvInt("VERIF_SHARD", 0), kit.EnvInt("VERIF_SHARDS", 1)
 	reps := kit.EnvInt("VERIF_REPS", 10)
 	j := &c07Judge{self: c07SelfID(), leftovers: map[int]bool{}, rep: rep}
+	if p := kit.Env("VERIF_TRACE", ""); p != "" {
+		tr, err := kit.NewTracer(p)
+		if err != nil {
+			t.Fatal(err)
+		}
+		defer tr.Close()
+		j.tr = tr
+	}
 	procs := runtime.GOMAXPROCS(0)
 	// On a tree with a defect whole families of scenarios fail for the same reason, each failure leaving
 	// goroutines blocked for ever in this process.  After `limit` failures of scenarios with the same
